@@ -14,6 +14,22 @@ CHECKS = {
   text='Exhaustive enumeration of all phase sequences of length <= 6/8 over the 5-value alphabet x four phase_edge values, plus Hypothesis-generated phases with random and block boolean masks, single segments fed to is_good, and cycle containers (cache on and off); each wrap-delimited segment must be labelled iff it meets the documented criteria (three-valued oracle: exact boundary values are do-not-care).',
   note='Boundary equalities (p[0] in {0, edge}, p[-1] in {2pi-edge, 2pi}) are not decided because docstring (strict) and code (inclusive) differ; boolean vector masks only.',
   technique='exhaustive enumeration + property-based testing against a three-valued reference predicate'),
+ 'C10': dict(
+  text='Exhaustive small grid of edge-hitting / out-of-range frequency arrays plus Hypothesis-generated arrays with linear and log bin sets, compared with a per-sample brute-force histogram for the dense, sparse and 1-D spectra, their marginals and the in-range total.',
+  note='Half-open bins [e_b, e_b+1) as stated by the property; finite inputs, strictly increasing edges.',
+  technique='exhaustive enumeration + property-based differential testing against a brute-force histogram'),
+ 'C11': dict(
+  text='Exhaustive small grid over carrier x AM frequency classes (below / on edge / mid-bin / last edge / above) plus Hypothesis-generated [T x M] / [T x M x K] arrays with independent bin sets, compared with a triple-loop brute-force histogram for all three squash_time settings.',
+  note='Half-open bins on both axes; finite inputs.',
+  technique='exhaustive enumeration + property-based differential testing against a triple-loop histogram'),
+ 'C14': dict(
+  text='Hypothesis-generated gapped label vectors x reducing functions (exact comparison with per-label computation), monotone multi-cycle phases x functions of phase (exact for linear quantities, bounded interpolation error otherwise, per-cycle affine variants so that mixing cycles is visible) and phase binning against a brute-force per-bin mean for every bin.',
+  note='Interpolation tolerances are 4x classical bounds calibrated with >=3x head-room; mode=cycle only.',
+  technique='property-based testing against direct per-label recomputation and closed-form expectations'),
+ 'C16': dict(
+  text='Exhaustive enumeration of recording layouts (cycle lengths 1-3, optional gaps) x every selection vector, up to 4/5 cycles fully and every selection vector up to length 9/12 on fixed layouts, plus random instances up to 200 cycles; all 12 map_* and 6 project_* functions compared with set-theoretic definitions.',
+  note='Label vectors are built by the reference model as 1-D integer arrays.',
+  technique='exhaustive enumeration + property-based testing against set-theoretic reference definitions'),
 }
 
 NOT_APPLICABLE = [{'property_id': p, 'reason': 'check not built yet in this round (planned with the same technique, see DESIGN.md section 2)'}
